@@ -26,6 +26,7 @@ def run(ctx):
     ctx.rule("R10.2", "journal_mode pragma literals are crash-safe modes (WAL / PERSIST / DELETE / TRUNCATE), never OFF or MEMORY; connect() is the only Connection::open")
     ctx.rule("R10.3", "locks are fcntl byte-range locks only: F_SETLK/F_SETLKW issued only by Lock::{try_lock, wait_lock, unlock}; nothing tests the existence of a file as a lock")
     ctx.rule("R10.4", "a stale temp output is removed before every fork of a .do; log temp files are persisted by rename")
+    ctx.rule("R10.6", "helper commands run by a .do (redo-stamp, redo-always, redo-ifchange, redo-ifcreate) do not commit verdict-relevant fields of the target's own row ahead of the builder's result transaction (or an intent marker covers the unfinished build)")
     ctx.rule("R10.5", "success path order of durable effects: a target replacement (rename) is preceded by a committed intent for that target that the next run's override detection takes into account")
 
     for nm in ("state::ProcessState::write", "state::ProcessTransaction::write"):
@@ -76,6 +77,8 @@ def run(ctx):
     tin = sba.calls(r"tempfile::Builder::tempfile_in")
     ok = bool(per) and bool(tin) and all(sba.dominates(tin[0], p) for p in per)
     ctx.ob("R10.4", "%s|log-replaced-by-rename" % SS.key, ok, where=SS.span, detail="the per-target log is created as a NamedTempFile in the log's directory and persisted (renamed) into place")
+
+    helper_commit_rule(ctx)
 
     # ---- R10.5 durable-effect order
     R = anchors.record_new_state(prog)
@@ -143,3 +146,56 @@ def run(ctx):
             "every later run classify the freshly built file as a manual override ('you modified it; skipping') until the user deletes it. "
             "Order: %s; override predicate reads %s; the pre-fork transaction writes %s on the target's record%s" % (
                 " -> ".join(seq), sorted(pred_fields), sorted(written), "" if saves_target else " and does not save it")))
+
+
+VERDICT_FIELDS = r"state::File\.(changed_runid|checked_runid|failed_runid|stamp|is_generated|csum)"
+
+
+def helper_commit_rule(ctx):
+    """R10.6"""
+    import re as _re
+    from core import taint
+    prog = ctx.prog
+    helpers_ = [r"@bin::stamp::run", r"@bin::always::run", r"@bin::ifcreate::run", r"@bin::ifchange::run::\{closure#0\}"]
+    # File methods that write a verdict-relevant field (transitively through direct calls)
+    writers = {}
+    for b in prog.bodies.values():
+        if b.key.startswith("state::File::"):
+            fs = {place_fields(st["place"])[-1] for _, _, st in field_writes(b, VERDICT_FIELDS)}
+            if fs:
+                writers[b.key] = fs
+    changed = True
+    while changed:
+        changed = False
+        for b in prog.bodies.values():
+            if not b.key.startswith("state::File::"):
+                continue
+            for (_, t, kind) in ctx.cg.site_edges.get(b.key, []):
+                if kind == "direct" and t in writers and not writers[t] <= writers.get(b.key, set()):
+                    writers.setdefault(b.key, set()).update(writers[t])
+                    changed = True
+    n = 0
+    for h in helpers_:
+        b = prog.one(h)
+        ba = BA.of(b)
+        # the target's own record: from_name(path built from env.target())
+        tgt = taint(b, src_call=lambda t: call_matches(t, r"env::Env::target"), mode="derived")
+        recs = [i for i in ba.calls(r"state::File::from_name") if op_local(b.blocks[i]["term"]["args"][1]) in tgt or
+                any(x in tgt for x in ba.ref_chain(op_local(b.blocks[i]["term"]["args"][1])))]
+        commits = ba.calls(r"state::ProcessTransaction::commit")
+        for r in recs:
+            n += 1
+            rec = taint(b, seeds={b.blocks[r]["term"]["dest"]["l"]}, mode="direct")
+            bad = []
+            for i in ba.all_calls():
+                t = b.blocks[i]["term"]
+                name = callee_paths(t)[0] if callee_paths(t) else ""
+                if name in writers and t["args"] and (op_local(t["args"][0]) in rec or any(x in rec for x in ba.ref_chain(op_local(t["args"][0])))):
+                    if any(ba.path([i], [c]) for c in commits):
+                        bad.append((i, name, sorted(writers[name])))
+            ctx.ob("R10.6", "%s|commits-verdict-fields-of-target-before-result" % b.key, not bad, where=ctx.where(b, bad[0][0]) if bad else b.span,
+                   detail="the helper only adds dependency edges to the running target's row (two-phase protected)" if not bad else
+                   ("%s commits %s on the *running* target's own row (%s) in its own transaction: a kill after that commit and before the builder records the result "
+                    "leaves a row that says 'changed/checked in this run' next to the old stamp and the old file, and the next run finds the stale target clean (exit 0)" % (
+                        b.key, sorted({f.split('.')[-1] for _, _, fs in bad for f in fs}), ", ".join(sorted({common.short(nm) for _, nm, _ in bad})))))
+    ctx.floor("R10.6", "helper commands that open the running target's row", n, 3)
